@@ -466,3 +466,22 @@ Qed.
 Theorem sess_coldff_accepted s X ff nt br i0 p :
   ff_check ff nt = None -> sess_step s (VColdFF X ff nt br i0 p) = sess_step s (VCold X br i0 p).
 Proof. intros H. unfold sess_step. now rewrite H. Qed.
+
+(* ---- score thresholds ---------------------------------------------------------------------- *)
+(* for EVERY threshold (none / absolute / relative, any value): the object stops exactly when plain
+   FPS stops, after the same selections, with the same tables.  The threshold is consulted by the
+   shared best_new only; oupd (= _get_active + the update) does not take it. *)
+Theorem obj_threshold_stop X d br ycand prev i0 (t : thr) k :
+  dims d X -> (i0 < length X)%nat ->
+  let rv := obj_fit_cold X br ycand prev i0 t k in
+  let rf := fps_fit X ycand [i0] t k in
+  snd rv = snd rf /\ length (sel (fst rv)) = length (sel (fst rf)) /\
+  sel (fst rv) = sel (fst rf) /\ o_haus (sst (fst rv)) = haus (sst (fst rf)) /\
+  first (fst rv) = first (fst rf).
+Proof.
+  intros Hd Hi rv rf.
+  destruct (obj_cold_equals_fps X d Hd br ycand prev i0 t k Hi) as (Hs & Hst).
+  pose proof Hs as (A & _ & _ & D & _).
+  destruct (gs_outputs X _ _ Hs) as (_ & _ & _ & Hh & _).
+  subst rv rf. repeat split; try assumption. now rewrite A.
+Qed.
